@@ -24,7 +24,7 @@ from __future__ import annotations
 
 import ast
 
-from ..facts import call_name, dotted, norm
+from ..facts import argv, call_name, dotted, norm
 from ..linters import Linters
 from ..util import contains, handler_names, handlers_covering, is_call_named, is_caught
 
@@ -283,6 +283,28 @@ def check(run, ctx):
                     run.ok(E11, sym, "has a default / is under a handler")
                 else:
                     run.finding(E11, fq.replace("src.", "", 1), f"next-without-default:{norm(c.args[0])[:60]}", f"{fq}: `{norm(c)[:90]}` raises StopIteration when nothing matches; inside a rule that is an unexpected exception: _safe_check_rule logs it and the rule reports nothing at all for the file (every command logs the failure)", f"{f.module.rel}:{c.lineno}")
+    E12 = run.rule("E12", "the shared tree-sitter parsers carry no time budget or cancellation: a parse either completes or raises for that input alone", floor=1,
+                   decides="a large or pathological file is analysed (or fails) on its own: it is not silently skipped, and the module-level parser is not left in a resumable state that hands the NEXT file the previous file's tree")
+    n_parsers = 0
+    for m in sorted(repo.modules.values(), key=lambda x: x.name):
+        if not m.name.startswith("src."):
+            continue
+        for n in ast.walk(m.tree):
+            if isinstance(n, ast.Call) and call_name(n) == "Parser" and any(isinstance(x, ast.Call) and call_name(x) in ("Language", "language") or isinstance(x, ast.Name) for x in argv(n)):
+                n_parsers += 1
+            bad = None
+            if isinstance(n, (ast.Assign, ast.AugAssign, ast.AnnAssign)):
+                tg = n.targets[0] if isinstance(n, ast.Assign) else n.target
+                if isinstance(tg, ast.Attribute) and tg.attr in ("timeout_micros", "included_ranges"):
+                    bad = n
+            elif isinstance(n, ast.Call) and call_name(n) in ("set_timeout_micros", "set_cancellation_flag", "set_included_ranges"):
+                bad = n
+            elif isinstance(n, ast.keyword) and n.arg in ("timeout_micros", "progress_callback"):
+                bad = n.value
+            if bad is not None:
+                run.finding(E12, m.name.replace("src.", "", 1), f"parser-budget:{norm(bad)[:50]}", f"{m.name}: `{norm(bad)[:70]}` gives a shared parser a time budget / cancellation: when it is used up tree-sitter raises (or returns nothing) for that file - the rules then report nothing for it - and the next parse() on the same parser object resumes the interrupted parse instead of starting on the new source", f"{m.rel}:{getattr(bad, 'lineno', 0)}")
+    run.ok(E12, "tree-sitter parsers", f"{n_parsers} Parser(...) constructions, none with a time budget")
+    run.require(n_parsers >= 2, f"E12: only {n_parsers} tree-sitter Parser constructions found in src (rust_base and typescript_base confirmed)")
     E10 = run.rule("E10", "a numeric literal's value is rendered as decimal text (f-string, str(), format) only under a ValueError handler", floor=3,
                    decides="an integer literal of more than 4300 digits (written in hex/octal/binary) does not raise 'Exceeds the limit for integer string conversion' out of the magic-number rule")
     for f in sorted(repo.funcs_in("src.linters.magic_numbers."), key=lambda x: x.qual):
